@@ -39,8 +39,8 @@ func (notification *Notification) Unmarshal(b []byte) error {
 		if len(b) < 4 {
 			return errors.Errorf("Notification: No sufficient bytes to decode next notification")
 		}
-		spiSize := b[1]
-		if len(b) < int(4+spiSize) {
+		spiSize := int(b[1])
+		if len(b) < 4+spiSize {
 			return errors.Errorf("Notification: No sufficient bytes to get SPI according to the length specified in header")
 		}
 
